@@ -233,6 +233,10 @@ fn classify(got: &[u8], want: &[u8]) -> &'static str {
     }
 }
 
+pub fn classify_pub(got: &[u8], want: &[u8]) -> &'static str {
+    classify(got, want)
+}
+
 fn cases(tier: Tier) -> Vec<Case> {
     let mut v = vec![];
     let sizes_quick = [0usize, 1, 100, 4095, 4096, 4097, 16384, 40000];
@@ -264,7 +268,7 @@ fn cases(tier: Tier) -> Vec<Case> {
 }
 
 fn profile() -> ChoiceProfile {
-    ChoiceProfile { read_faults: vec![FdClass::Front, FdClass::Back], write_faults: vec![FdClass::Front, FdClass::Back], max_points_per_class: 6, event_order: true }
+    ChoiceProfile { read_faults: vec![FdClass::Front, FdClass::Back], write_faults: vec![FdClass::Front, FdClass::Back], max_points_per_class: 6, event_order: true, ..Default::default() }
 }
 
 pub fn run_item(tier: Tier, item: usize) -> ItemResult {
